@@ -36,6 +36,11 @@ def lattice(draw, tier):
     return draw(gen.lattice_cases())
 
 
+@st.composite
+def hollow(draw, tier):
+    return draw(gen.hollow_cases())
+
+
 def setup(tier, seed, shard):
     return {"worker": Worker(module="harness.native.worker2")}
 
@@ -115,6 +120,7 @@ def check(case, ctx=None):
 STREAMS = {
     "main": {"strategy": cases, "check": check, "setup": setup, "teardown": teardown},
     "lattice": {"strategy": lattice, "check": check, "setup": setup, "teardown": teardown},
+    "hollow": {"strategy": hollow, "check": check, "setup": setup, "teardown": teardown},
 }
 
 
@@ -137,6 +143,7 @@ def run(chk):
     n = 320 if chk.tier == "quick" else 25000
     chk.absorb(run_stream(__name__, "main", chk.tier, chk.seed, n), shrink=shrink_case)
     chk.absorb(run_stream(__name__, "lattice", chk.tier, chk.seed, n), shrink=shrink_case)
+    chk.absorb(run_stream(__name__, "hollow", chk.tier, chk.seed, n // 2), shrink=shrink_case)
 
 
 def health(cov):
